@@ -498,7 +498,9 @@ func (t *threadState) runLoop(in *Interp) {
 			} else {
 				pick = in.ex.choose("schedule", make([]*Term, len(en)))
 				t.Switches++
-				if lastIdx < 0 || pick != lastIdx {
+				// a bound set by a harness counts preemptive switches (leaving a goroutine that could go on);
+				// the default bound for goroutines the program starts counts every scheduling choice
+				if (lastIdx >= 0 && pick != lastIdx) || !t.boundSet {
 					t.preempts++
 				}
 			}
